@@ -21,6 +21,7 @@ mode real: the case carries "snaps": `verif_snapshot()` of the REAL tree after e
            entries: contents-mismatch-on-real-state).
 mode trace: after the last op, per haystack the `trace(haystack)` tree {regex, count, matched, children, values(sorted)}
            (the harness parses the `Debug` rendering of the real `Trace`).
+mode twin / router (C12): no model observation (tag twin-only), see harness/src/bin/c12.rs.
 mode rx  : per pattern {p, ok, m[per haystack], pre[[k, ok, m[..]] per scanner-boundary k]} – validates
            Model/Regex (+ render, + the scanner) against the real crate.
 mode cp  : {"a","b","n"} -> [common_prefix_char_size(a,b), get_prefix_with_char_size(a,n)]
@@ -256,6 +257,10 @@ def handle (j : Json) : Except String Json := do
     let n ← Drv.nat? j "n"
     return Json.mkObj [("m", Json.arr #[toJson (commonPrefixCharSize a b), jStr (getPrefixWithCharSize a n),
       jStr (commonPrefix a b)])]
+  if mode == "twin" || mode == "router" then
+    -- Unicode-aware constructs (`\\w`, `\\d`, Unicode classes, non-ASCII case folding), tree and router level: decided by the
+    -- implementation-side oracles of c12 alone (cache-free twin, scan with the regex crate); no model observation
+    return Json.mkObj [("tags", Json.arr #["twin-only"])]
   let ic ← Drv.bool? j "ic"
   let unique := (← Drv.optBool? j "unique").getD false
   let ops ← (← Drv.arr? j "ops").toList.mapM (parseOp unique)
